@@ -59,6 +59,8 @@ bool durability_check(Plan const& p, IWorld& fresh_world, ChkptView const& befor
     Report& rep, char const* where);
 
 std::string key_of(Plan const& p);
+// the feature of the plan that is known to matter for text round trips (empty if none)
+std::string roundtrip_class(Plan const& p);
 
 }
 
